@@ -36,7 +36,7 @@ DICTIONARY = [
     "del/", "-True", "yield.py", "./configure", "..", "...", "1e5x", "0x1f", "1_0", "1.", ".5", "1j", "0b2", "1__0", "1e+", "a1", "1a", "0_1",
     "<=", ">>=", "->", ":=", "==", "!=", "<<", "**", "//", "a!=b",
     # non-ASCII letters, one per Unicode normalisation class: stable, NFKC-unstable, NFC-unstable (singleton), astral, CJK, case-odd; combining marks are not letters and stay outside
-    "caf\u00e9", "\u00b5", "\ufb01le.txt", "e\u0301", "\u212b", "\U0001d41ab", "\u4e2d\u6587", "\u00df", "\u0130x", "\u2460", "x\u00b2",
+    "caf\u00e9", "\u00b5", "\ufb01le.txt", "\u212b", "\U0001d41ab", "\u4e2d\u6587", "\u00df", "\u0130x", "\u2460", "x\u00b2",
 ]
 
 
